@@ -194,6 +194,8 @@ pub fn guarded<F: FnOnce() -> Obs + std::panic::UnwindSafe>(f: F) -> Obs {
 pub struct Gen {
     pub rng: Rng,
     pub out: Vec<(bool, Input)>,
+    /// the time of day drawn last (off_pool aligns the offset with it one time in five: local midnight, 23:59:59, noon)
+    pub last_nanos: i128,
 }
 impl Gen {
     pub fn push(&mut self, nontrivial: bool, inp: Input) {
